@@ -1,1 +1,4 @@
 // hook file for ntp-proto/src/ipfilter.rs: declares the per-property harness modules
+#[cfg(any(verif_all, verif_c31))]
+#[path = "/verif/harness/ntp-proto/c31.rs"]
+mod c31;
